@@ -961,6 +961,21 @@ func (p *printer) msgLit(scope string, m protoreflect.Message, depth int) string
 			parts = append(parts, one(fd, v))
 		}
 	}
+	// an empty list literal for a repeated field the value does not set changes nothing
+	if p.st != nil && p.st.Rng != nil {
+		mfs := m.Descriptor().Fields()
+		for i := 0; i < mfs.Len(); i++ {
+			fd := mfs.Get(i)
+			if fd.IsList() && !m.Has(fd) && !isGroupLike(fd) && p.st.chance(0.12) {
+				e := string(fd.Name()) + ": []"
+				if p.st.chance(0.5) {
+					parts = append([]string{e}, parts...)
+				} else {
+					parts = append(parts, e)
+				}
+			}
+		}
+	}
 	if len(parts) == 0 {
 		return open + close
 	}
